@@ -215,6 +215,51 @@ def runFuel (m : NMachine S E) : Nat → Tracker → S → Option (NFRun S E)
 
 end NMachine
 
+/-! ## errors on their way up through nested activations and Rust callables -/
+
+/-- an `Error` with its `source()` chain, as far as fuel is concerned -/
+inductive RErr where
+  | outOfFuel
+  /-- any other kind, no source -/
+  | plain (kind : String)
+  /-- `Error::new(kind, …).with_source(src)` -/
+  | wrapped (kind : String) (src : RErr)
+  deriving Repr, DecidableEq
+
+/-- the root cause is `OutOfFuel` (what the harness's oracle accepts as "an out-of-fuel error") -/
+def RErr.rootIsOutOfFuel : RErr → Bool
+  | .outOfFuel => true
+  | .plain _ => false
+  | .wrapped _ src => src.rootIsOutOfFuel
+
+/-- kinds of the wrappers around the root cause, outermost first -/
+def RErr.wrapperKinds : RErr → List String
+  | .wrapped k src => k :: src.wrapperKinds
+  | _ => []
+
+/-- what a frame between the nested activation and the caller of `render` does with an error
+    (the dispositions of `MJ.Gen.fuelErrConsumers`) -/
+inductive Handler where
+  /-- `?` / `ok!` / `Err(err) => return Err(err)` -/
+  | propagate
+  /-- `Error::new(kind, …).with_source(err)` (`perform_include`: BadInclude, `perform_super`: EvalBlock) -/
+  | wrapKeepingSource (kind : String)
+  /-- `Error::new(kind, format!("…{err}"))`: the original survives only as text -/
+  | replace (kind : String)
+  deriving Repr, DecidableEq
+
+def Handler.keepsSource : Handler → Bool
+  | .replace _ => false
+  | _ => true
+
+def Handler.apply : Handler → RErr → RErr
+  | .propagate, e => e
+  | .wrapKeepingSource k, e => .wrapped k e
+  | .replace k, _ => .plain k
+
+/-- the error that reaches the caller after passing the frames `hs` (innermost first) -/
+def passThrough (hs : List Handler) (e : RErr) : RErr := hs.foldl (fun acc h => h.apply acc) e
+
 /-! ## configuration path -/
 
 /-- the part of the `Environment` that matters: `fuel: Option<u64>` -/
